@@ -73,7 +73,7 @@ func TestWorker(t *testing.T) {
 	current.Store("")
 	// real-time watchdog: a run that takes more than the limit is a harness
 	// problem (exit 3), never a violation.
-	limit := time.Duration(envInt("ZSIM_RUN_LIMIT_S", 150)) * time.Second
+	limit := time.Duration(envInt("ZSIM_RUN_LIMIT_S", 240)) * time.Second
 	go func() {
 		for {
 			time.Sleep(time.Second)
